@@ -233,6 +233,10 @@ func Message(fn func()) {
 	}
 	attr := &expr.AttributeExpr{}
 	if eval.Execute(fn, attr) {
+		if !expr.IsObject(attr.Type) {
+			eval.ReportError("Message must define at least one attribute")
+			return
+		}
 		setter(attr)
 	}
 }
@@ -286,6 +290,10 @@ func Metadata(fn func()) {
 	case *expr.GRPCEndpointExpr:
 		attr := &expr.AttributeExpr{}
 		if eval.Execute(fn, attr) {
+			if !expr.IsObject(attr.Type) {
+				eval.ReportError("Metadata must define at least one attribute")
+				return
+			}
 			e.Metadata = expr.NewMappedAttributeExpr(attr)
 		}
 	default:
@@ -335,6 +343,10 @@ func Trailers(fn func()) {
 	case *expr.GRPCResponseExpr:
 		attr := &expr.AttributeExpr{}
 		if eval.Execute(fn, attr) {
+			if !expr.IsObject(attr.Type) {
+				eval.ReportError("Trailers must define at least one attribute")
+				return
+			}
 			e.Trailers = expr.NewMappedAttributeExpr(attr)
 		}
 	default:
